@@ -21,7 +21,7 @@ if [ ! -f Cargo.lock ]; then cp /repo/Cargo.lock Cargo.lock; fi
 		;;
 	esac
 	case "$ID" in
-	C03|C04|C13|C14|C15|C16|C18|all|bins)
+	C03|C04|C11|C13|C14|C15|C16|C18|all|bins)
 		if [ -f /verif/shim/xtsim_io.c ]; then
 			gcc -O2 -fPIC -shared -o /verif/.build/libxtsim_io.so /verif/shim/xtsim_io.c -ldl
 		fi
